@@ -367,6 +367,10 @@ def fromItemsF (s : Schema) (items : List Rec) : Frame :=
 def transposeCols (n : Nat) (d : List (String × List Cell)) : List Rec :=
   (List.range n).map fun i => d.map fun kv => (kv.1, (kv.2[i]?).getD .nan)
 
+def isListDefault : Cell → Bool
+  | .strs _ => true
+  | _ => false
+
 /-- `cls.from_dict(d)` for a dict of equally long columns: empty dict → empty list; an undeclared key →
 `ValueError`; every declared field not in `d` is added with its default -/
 def fromDictF (s : Schema) (d : List (String × List Cell)) : Except Err Frame :=
@@ -378,7 +382,7 @@ def fromDictF (s : Schema) (d : List (String × List Cell)) : Except Err Frame :
       let missing := s.declared.filter (fun p => !keys.contains p.1)
       let n := kv.2.length
       -- `df[col] = default` with a list default only fits a frame without rows
-      if n ≠ 0 ∧ missing.any (fun p => match p.2.2 with | .strs _ => true | _ => false) then .error .value
+      if n ≠ 0 ∧ missing.any (fun p => isListDefault p.2.2) then .error .value
       else
         let add : Rec := missing.map fun p => (p.1, p.2.2)
         .ok ⟨keys ++ missing.map (·.1), relabel ((transposeCols n d).map (· ++ add))⟩
